@@ -345,7 +345,11 @@ class Item:
                 elif ch in ")]":
                     par -= 1
                 elif ch == "{" and par == 0:
-                    break
+                    if re.search(r"\bunsafe\s*$", self.m[s:j]):
+                        # `for x in unsafe { .. } {`: the block of the header expression, not the loop body
+                        j = match_brace(self.m, j)
+                    else:
+                        break
                 j += 1
             res.append((mo.group(1), s, j, match_brace(self.m, j)))
         return res
@@ -1357,15 +1361,15 @@ class Item:
             keep = (s + mo.start(2), s + mo.end(2))
         if keep:
             self.rewrite(s, keep[0], "let %s = " % r, "R3-for-index")
-            self.rewrite(keep[1], bopen + 1, ";\n    let mut %s: usize = 0;\n    while %s < %s.len()\n    /*@loop*/\n    {\n      %s/*@body*/" % (iv, iv, r, bind), "R3-for-index")
+            self.rewrite(keep[1], bopen + 1, ";\n    let mut %s: usize = 0;/*@pre*/\n    while %s < %s.len()\n    /*@loop*/\n    {\n      %s/*@body*/" % (iv, iv, r, bind), "R3-for-index")
         else:
-            self.rewrite(s, bopen + 1, "%slet mut %s: usize = 0;\n    while %s < %s.len()\n    /*@loop*/\n    {\n      %s/*@body*/" % (pre, iv, iv, r, bind), "R3-for-index")
+            self.rewrite(s, bopen + 1, "%slet mut %s: usize = 0;/*@pre*/\n    while %s < %s.len()\n    /*@loop*/\n    {\n      %s/*@body*/" % (pre, iv, iv, r, bind), "R3-for-index")
         for c in re.finditer(r"\bcontinue\b", self.m[bopen + 1:bclose]):
             cpos = bopen + 1 + c.start()
             if any(lo_ < cpos < lc_ for (_, _, lo_, lc_) in inner):
                 continue  # belongs to a nested loop
             self.rewrite(cpos, cpos + len("continue"), "{ %s = %s + 1; continue }" % (iv, iv), "R3-for-index")
-        self.rewrite(bclose, bclose, "  %s = %s + 1;\n    " % (iv, iv), "R3-for-index")
+        self.rewrite(bclose, bclose, "/*@tail*/  %s = %s + 1;\n    " % (iv, iv), "R3-for-index")
 
     def r3_for_owned_set(self, fn, k):
         """like for-owned, for a HashSet<&str> consumed by value: its elements as a list first (trusted vx_set_elems)"""
@@ -1387,6 +1391,7 @@ class Item:
         if setmode:
             recv = "vx_set_elems(%s)" % recv
         self.rewrite(s, bopen + 1, "let mut %s = vx_into_iter(%s);/*@pre*/\n    loop\n    /*@loop*/\n    {\n      let Some(%s) = %s.next() else { break; };/*@body*/" % (iv, recv, pat, iv), "R3-for-owned")
+        self.rewrite(bclose, bclose, "/*@tail*/", "R3-for-owned")
 
     def r3_for_iter(self, fn, k):
         """for X in ITER { BODY } where ITER is an iterator VALUE (IntoIterator is the identity on iterators)
@@ -1407,6 +1412,7 @@ class Item:
         iv = "vx_it" if k == 1 else "vx_it%d" % k
         self.rewrite(s, r0, "let mut %s = " % iv, "R3-for-iter")
         self.rewrite(r1, bopen + 1, ";/*@pre*/\n    loop\n    /*@loop*/\n    {\n      let Some(%s) = %s.next() else { break; };/*@body*/" % (pat, iv), "R3-for-iter")
+        self.rewrite(bclose, bclose, "/*@tail*/", "R3-for-iter")
 
     def r3_for_by_ref(self, fn, k):
         """for X in RECV.by_ref() { BODY }  ==>  loop { let Some(X) = RECV.next() else { break; }; BODY }
@@ -1675,12 +1681,22 @@ def build_unit(unit_path, repo=REPO):
         if not os.path.exists(path):
             raise Undecided("LOST-ANCHOR: file %s missing" % relpath)
         src = open(path).read()
-        s, e = locate(src, mask(src), locators)
+        try:
+            s, e = locate(src, mask(src), locators)
+        except Undecided:
+            # `optional`: a helper that a function under contract may or may not use (its contract matters only when it is called --
+            # then the call fails to resolve and the unit is undecided, never silently passed)
+            if re.match(r"\s*optional\b", mo.group(2)):
+                gen_chunks.append(("// (optional item %s :: %s is not in this tree)\n" % (relpath, " :: ".join(locators)), ("tmpl", tline)))
+                continue
+            raise
         it = Item(relpath, locators, src[s:e], src.count("\n", 0, s) + 1)
         renames = []
         for name, args, payload in parse_directives(mo.group(2)):
             if name == "as" and args == ["canary"]:
                 it.canary = True
+            elif name == "optional":
+                pass
             elif name == "rename":
                 renames.append((args[0], args[1]))
             elif name == "only":
@@ -1791,8 +1807,12 @@ def build_unit(unit_path, repo=REPO):
                                     raise Undecided("R3: this shape has no ---tail--- hook")
                             new = ed[2].replace("/*@loop*/", "/*+vx*/" + inv + "/*-vx*/")
                             if pretxt.strip():
+                                if "/*@pre*/" not in new:
+                                    raise Undecided("R3: this shape has no ---pre--- hook")
                                 new = new.replace("/*@pre*/", "/*+vx*/" + pretxt + "/*-vx*/")
                             if bodytxt.strip():
+                                if "/*@body*/" not in new:
+                                    raise Undecided("R3: this shape has no ---body--- hook")
                                 new = new.replace("/*@body*/", "/*+vx*/" + bodytxt + "/*-vx*/")
                             it.edits[ei] = (ed[0], ed[1], new, ed[3], ed[4])
                             break
